@@ -315,6 +315,7 @@ rng = random.Random(seed)
 ANG = 0.52917721090380
 fails, cases = [], 0
 tmp = tempfile.mkdtemp()
+__import__("atexit").register(__import__("shutil").rmtree, tmp, True)
 for it in range(nmol):
     n = rng.choice([1, 2, 3, 7, 50, 200]) if it % 5 == 0 else rng.randint(1, 12)
     atnums = [rng.randint(1, 118) for _ in range(n)]
